@@ -38,7 +38,7 @@ CHECKS["C08"] = ("exploration", "differential monitor against an independent imp
     "Chunks secured by gopcua must open in refpeer to the same plaintext and chunks sealed by refpeer in every conforming variation must open in gopcua, for MSG under all policies/modes and OPN under every allowed RSA key size pair, both directions.",
     "refpeer written from the specification; shares only Go crypto stdlib with gopcua", "3/C08")
 CHECKS["C09"] = ("exploration", "tamper monitor: exhaustive single-byte, truncation, extension and wrong-key mutations of valid chunks against the real verifyAndDecrypt",
-    "Every mutated chunk must be rejected without panic; valid chunk as control.",
+    "Every mutated chunk must be rejected without panic; valid chunk as control. End-to-end layer over TCP: ~30 hostile variants per policy and mode against the real server and the real client on established channels, and forged unsigned OpenSecureChannel responses as the answer to the client's open and renew requests.",
     "delivery observed at verifyAndDecrypt of a detached instance (hook); server-side effect covered by C10/C29 workloads", "3/C09")
 CHECKS["C38"] = ("exploration", "dense chunk-size sweep monitor of SetMaximumBodySize against the real encoder and independent layout arithmetic",
     "Every chunk size in a dense range from the protocol minimum plus log-spaced/random sizes to 2^24, all symmetric policies and modes: the maximal body fits, is block aligned, matches the layout arithmetic, and max+1 does not fit in SignAndEncrypt; sampled bodies of k x maximum + 1 go through the real split. A live part opens real client channels and real server channels (a third renewed first, different buffers in the two directions) and lets the independent peer report length and body bytes of every chunk of a three-chunk message: each fits, and one more body byte than an intermediate chunk carries would not.",
